@@ -42,6 +42,10 @@ let catalogue : (string * piece list) array = [|
   "apply-blank",   [ T "["; B " apply length "; T ""; B " endapply "; T "]"; B " apply json_encode "; T " "; B " endapply "; T "." ];
   "apply-blank-chain", [ T "("; B " apply upper "; T ""; B " endapply "; T ")"; B " apply title "; T ""; B " endapply "; T "/"; B " spaceless "; T " "; B " endspaceless "; T ";" ];
   "blank-bodies",  [ B " if a "; T ""; B " else "; T ""; B " endif "; T "|"; B " for i in items "; T ""; B " endfor "; T "|"; B " block b "; T ""; B " endblock "; T "." ];
+  (* print tags whose value is whitespace or has whitespace at its ends, directly next to dashed tags: the dash removes
+     template text, never what a tag prints *)
+  "literal-print", [ T "x"; V " a "; V " ' ' "; V " b "; V " '  pad  ' "; B " if a "; V " ' in ' "; B " endif "; V " \"\\t\" "; V " a "; T "y" ];
+  "literal-print-2", [ V " ' lead' "; V " a "; V " 'trail ' "; B " for i in items "; V " ' ' "; V " i "; B " endfor "; V " ' ' ~ ' ' "; V " sp "; V " a " ];
   (* the closing tag repeats the block's name *)
   "block-named", [ T "[ "; B " block b "; T " body "; V " a "; T " "; B " endblock b "; T " ]" ];
   "block-named-ext", [ B " extends 'base' "; B " block b "; T " child "; V " a "; T " "; B " endblock b " ];
